@@ -15,7 +15,7 @@ CLAIMED = {
  "C05": dict(
   technique="fuzzing-style generated-input search with process isolation: seeded structured generators (adversarial specs, token corruption at the parser limits, realistic specs) drive a call-everything routine in worker processes; the driver's watchdog, exit status and RLIMIT_AS are the oracle for hang / abort / OOM, catch_unwind for panics",
   text="Exploration of the stated domain (explicit gate, discards counted): adversarial inputs on the release profile, realistic inputs on both the dev profile (overflow checks + debug assertions) and release; every public calculation incl. gradual walks and arbitrary score states per case; hangs confirmed alone with a 10x budget before being reported.",
-  note="Hangs are decided by a clock (10 s / 30 s per case under load, confirmed with 10x alone); the open steps-x-sections finding and the open taiko gradual findings are steered around (labelled).",
+  note="Hangs are decided by a clock (10 s / 30 s per case under load, confirmed with 10x alone); the open steps-x-sections finding is steered around (labelled).",
   ref="DESIGN.md §4 C05"),
  "C06": dict(
   technique=PBT + " over mutated .osu texts and raw bytes (grammar-based generation + line/token/byte/encoding mutators) with a well-formedness validity predicate, a bytes/str/path round-trip differential and a tagged-sound metamorphic oracle; reference-model check of the sorters through the hook",
@@ -25,12 +25,12 @@ CLAIMED = {
  "C02": dict(
   technique=PBT + "; differential oracle: gradual calculator vs one-shot passed_objects(i) on generated maps/settings",
   text="Exploration: generated maps of all modes/converts and Difficulty settings; every gradual value is compared field-by-field with the one-shot prefix calculation, the announced length with the produced count, the last value with the unlimited calculation. Finds counterexamples cheaply and reports how much of the domain was visited; does not prove absence.",
-  note="Trusts the harness's .osu renderer and Beatmap::from_bytes as the entry point; open taiko findings (known_findings.json) are steered around by construction and replayed from witnesses.",
+  note="Trusts the harness's .osu renderer and Beatmap::from_bytes as the entry point; both taiko gradual findings are fixed (their witnesses are replayed as regressions; steering only happens while an entry of known_findings.json is open).",
   ref="DESIGN.md §4 C02"),
  "C03": dict(
   technique=PBT + "; differential oracle over generated walks (next/nth/last) and score states: GradualPerformance vs one-shot Performance with passed_objects(i).state(s)",
   text="Exploration over maps x settings x step histories x score states (consistent and inconsistent): every returned PerformanceAttributes is compared on all fields with the one-shot calculation for the prefix the returned difficulty reports.",
-  note="Inputs in the open taiko gradual classes are excluded by construction (counted).",
+  note="No class is excluded at present (steering only happens while a taiko gradual entry of known_findings.json is open).",
   ref="DESIGN.md §4 C03"),
  "C04": dict(
   technique=PBT + "; differential oracle across 13 entry points (map by ref/value, DifficultyAttributes, PerformanceAttributes, mode-specific builders)",
@@ -40,7 +40,7 @@ CLAIMED = {
  "C07": dict(
   technique=PBT + "; relational oracle: three conversion entry points agree, decision table for Ok/Err, mode-dispatch calls vs the same call on the explicitly converted map",
   text="Exploration over maps of all native modes (incl. already converted ones) x target x conversion-relevant mods x settings: agreement of convert/convert_ref/convert_mut, identity, error variants, and equality of calculate_for_mode / strains_for_mode / gradual constructors / Performance::try_mode / mode_or_ignore with the explicit conversion.",
-  note="Gradual walks skip inputs inside open taiko gradual findings.",
+  note="Gradual walks would skip inputs inside an open taiko gradual finding; none is open.",
   ref="DESIGN.md §4 C07"),
  "C08": dict(
   technique=PBT + "; differential oracle over the five mod representations and over lazer settings vs explicit setters",
